@@ -1,4 +1,5 @@
 \* events (v10) as coded, every schedule (quick)
+\* measured (8 TLC workers shared over 3 runs): 197150 distinct / 611644 generated states, depth 22, 39.6s
 CONSTANTS NSubs = 1 NConn = 1 InitLen = 2 MaxLen = 4 MaxTag = 3 MaxReverts = 1 MaxL1 = 0 MaxPc = 2 MaxTx = 2 MaxGw = 0 MaxRecv = 0 MaxTicks = 0 MaxBack = 3 MaxGot = 6
   Ver = 10 Kinds <- KEvents StartAtL1 = 0 NoLag = FALSE QuietSub = FALSE ReorgPrio = FALSE TeeStage = FALSE Window = TRUE FixL1None = FALSE FixL1Order = FALSE BlockIds <- BidsSmall
 INIT Init
